@@ -141,6 +141,23 @@ def deliver(wb, f, d, ft, tmpdir, stem="data"):
         import io
 
         return io.BytesIO(raw), kw, None
+    if d == "bytesio_end":
+        import io
+
+        b = io.BytesIO()
+        b.write(raw)            # position is at the end, as after workbook.save(stream)
+        return b, kw, None
+    if d == "bytesio_twice":
+        import io
+
+        from pyxform.xls2xform import convert
+
+        b = io.BytesIO(raw)
+        try:
+            convert(xlsform=b, **kw)        # the caller converts the same stream object a second time
+        except Exception:  # noqa: BLE001
+            pass
+        return b, kw, None
     p = os.path.join(tmpdir, f"{stem}.{f}")
     with open(p, "wb") as fh:
         fh.write(raw)
